@@ -133,9 +133,14 @@ def deref1(v):
     return v.get() if isinstance(v, Ref) else v
 
 
+# types that only ever live behind an Arc (Arc<T> is transparent in this encoding): cloning the owner shares them
+ARC_ONLY = {'UniqueSource'}
+
+
 def clone_value(v):
     """deep copy of plain data (Agg / list / containers); references keep their identity"""
     if isinstance(v, Agg):
+        if v.name in ARC_ONLY: return v
         return Agg(v.name, [clone_value(f) for f in v.fields], v.variant, v.vidx)
     if isinstance(v, list):
         return [clone_value(x) for x in v]
@@ -151,6 +156,7 @@ def clone_value(v):
 def copy_value(v):
     """semantics of a MIR `copy` operand: plain-old-data aggregates are duplicated"""
     if isinstance(v, Agg):
+        if v.name in ARC_ONLY: return v
         return Agg(v.name, [copy_value(f) for f in v.fields], v.variant, v.vidx)
     if isinstance(v, list):
         return [copy_value(x) for x in v]
